@@ -41,7 +41,7 @@ KEY_WORDS = ["notFound", "errorResp", "okBody", "createReq", "pageParam", "sortO
 
 @st.composite
 def cases(draw, tier):
-    kind = draw(st.sampled_from(["components", "components", "schemas", "malformed", "malformed_schema"]))
+    kind = draw(st.sampled_from(["components", "components", "schemas", "schemas", "malformed", "malformed_schema"]))
     if kind == "malformed_schema":
         # a dangling / remote / bad-union-member reference in a *schema* position: judged by C08's containment oracle
         from . import c08
@@ -57,7 +57,8 @@ def cases(draw, tier):
                 base["ins"] = [{"kind": "new_component", "fault": "dangling_ref", "n": 0, "wrap": "in_object", "position": "end"}]
         return {"kind": "malformed_schema", "c08": base}
     prof = docs.profile(max_schemas=4, max_props=3, max_ops=3, max_depth=1, security=False,
-                        multi_body_multipart=False, multi_body_array=False)
+                        multi_body_multipart=False, multi_body_array=False,
+                        **({"affix_names": 2, "allof_one_in": 2} if kind == "schemas" else {}))
     ir = draw(docs.doc_ir(prof, min_schemas=2, min_ops=2 if kind == "malformed" else 1))
     bits = draw(st.lists(st.integers(0, 7), min_size=6, max_size=20))
     keys = draw(st.lists(st.sampled_from(KEY_WORDS), min_size=12, max_size=12, unique=True))
@@ -157,6 +158,15 @@ def _inline(s, comps, bt, recursive, depth=0):
         _inline(m, comps, bt, recursive, depth)
     for p in s.get("props", []):
         _inline(p[1], comps, bt, recursive, depth)
+    # an allOf member written by reference versus the same (flat) parent written out as an inline member
+    for m in s.get("allOf", []):
+        if m.get("k") == "ref" and m["name"] in comps and m["name"] not in recursive and not comps[m["name"]].get("allOf") \
+                and comps[m["name"]].get("k") == "object" and bt.take():
+            cp = copy.deepcopy(comps[m["name"]])
+            for p in cp.get("props", []):
+                _inline(p[1], comps, bt, recursive, depth + 1)
+            m.clear()
+            m.update(cp)
     return s
 
 
@@ -242,8 +252,12 @@ def _run_schemas(case, ctx):
             if r.exc is not None or not r.accepted:
                 ctx.skip("generator_rejected_or_crashed")
                 return
-        if a.errors:
+        if a.errors and b.errors:
             ctx.skip("base_not_clean")
+            return
+        if a.errors:
+            # the inline spelling generates cleanly, the by-reference spelling of the same document does not
+            ctx.violation("by_reference.no_new_diagnostics", {"pos": "schema"}, a.diag_text()[:300])
             return
         if b.errors:
             ctx.violation("inline.no_new_diagnostics", {"pos": "schema"}, b.diag_text()[:300])
